@@ -107,8 +107,18 @@ def run_history(ops, AC):
     """returns (observed lines, direct problems)"""
     coll, out, problems = None, [], []
     counter = [100]
+    frozen = []   # (the other side of an earlier copy(), its snapshot and array contents at that time)
     for op in ops:
         k = op[0]
+        for other, snap, arrs in frozen:
+            try:
+                now = snapshot(other)
+            except Exception as exc:
+                now = f"!{type(exc).__name__}"
+            if now != snap or any(n not in other._arrays or not np.array_equal(other._arrays[n], a) for n, a in arrs.items()):
+                problems.append(f"a collection changed when the other side of its copy() was modified: {snap} -> {now}")
+                frozen = []
+                break
         try:
             if k == "cnew":
                 coll = AC(op[2], expand_axis=op[1])
@@ -149,7 +159,10 @@ def run_history(ops, AC):
                 for n in coll:
                     if np.shares_memory(cp._arrays[n], coll._arrays[n]):
                         problems.append(f"copy() shares memory of array {n}")
-                coll = cp
+                # the history goes on with one side (alternating), the other side must stay as it is
+                keep, go = (coll, cp) if len(frozen) % 2 == 0 else (cp, coll)
+                frozen.append((keep, snapshot(keep), {n: keep._arrays[n].copy() for n in keep}))
+                coll = go
                 continue
             obs = snapshot(coll)
             # guarantees of the property text, on the live object
